@@ -39,7 +39,7 @@ func init() {
 		Phases: func(tier string) []engine.Phase {
 			zs := zooms(tier)
 			return []engine.Phase{
-				{Name: "geometry", ShardDepth: 2, Bounds: engine.Bounds{InputDev: -1},
+				{Name: "geometry", Serial: true, Bounds: engine.Bounds{InputDev: -1},
 					Rule: "full product h x v x (x,y) in HIdx(h)^2 x f in VIdx(v): 8 corners in NW,NE,SE,SW bottom-then-top order, exact lon/alt, banded lat, centre = midpoint, centre -> point lookup at the same zooms returns the ID, faces shared bit for bit with the east, south and upper neighbour; both notations when h = v; unknown option is an error; non-trivial = distinct IDs on a grid edge (first/last column or row, lowest/highest f)",
 					Body: func(c *engine.Ctx) {
 						h := zs[c.In("h", len(zs))]
